@@ -35,9 +35,20 @@ def _init():
 
 
 def _work(item):
+    import shutil
+
     tag, h = item
+    # a NEW directory for every history: a connection left open by an earlier history must never share
+    # a path (and hence a journal file name) with the current one
+    _ST["n"] = _ST.get("n", 0) + 1
+    prev = _ST.get("prev")
+    if prev:
+        shutil.rmtree(prev, ignore_errors=True)
+    d = os.path.join(_ST["wdir"], "h%d" % _ST["n"])
+    os.makedirs(d)
+    _ST["prev"] = d
     try:
-        return tag, h, _ST["fn"](h, _ST["wdir"], tag)
+        return tag, h, _ST["fn"](h, d, tag)
     except Exception as e:       # harness defect or escaped exception: report, never hide
         import traceback
 
